@@ -100,7 +100,7 @@ class C13:
         return [c20.gen_tables]
     rule = ('harness/cspline.cpp: BSpline<K,G>, K=1..6 x {SO3,SE2,SE3,Bundle<SO3,V3>,V3} x N in {K+1,K+2..,30} x t0 in '
             '{0,-3.75,1e6,-1e3,0.1,12345.678,random} x dt in {1e-3..1e3} x t at every knot and +-1 ulp, t_min, t_max, outside by '
-            '1 ulp, far (1e3 dt, 1e15 dt, 2^63 dt, 1e300, inf), random inside; distinct_nontrivial = distinct (group,K,N,t0,dt,t,ctrl bits)')
+            '1 ulp, t_min - f dt and t_max + f dt for f in {1e-9,1e-3,.25,.5,.75,1-1e-9,1,1+1e-9}, far (1e3 dt, 1e15 dt, 2^63 dt, 1e300, inf), random inside; distinct_nontrivial = distinct (group,K,N,t0,dt,t,ctrl bits)')
     assumptions = ['IEEE rounding is audited against the fixed-point oracle, not proved',
                    'the float quotient (t-t0)/dt can round across an integer at exact knots: outputs of order >= K are '
                    'two-valued there and excluded from the knot/locality comparisons',
@@ -137,8 +137,11 @@ class C13:
         cand = list(bsl)
         rnd.shuffle(cand)
         # knots and their neighbours first (that is where windows change), then the rest
-        cand.sort(key=lambda l: 0 if l.tag.startswith('knot') else 1)
-        pick = cand[:n_val]
+        near = [l for l in cand if l.tag.startswith('t_min-') or l.tag.startswith('t_max+')]   # within (1+1e-9) dt outside the range
+        knots = [l for l in cand if l.tag.startswith('knot')]
+        rest = [l for l in cand if not (l.tag.startswith('knot') or l.tag.startswith('t_min-') or l.tag.startswith('t_max+'))]
+        pick = near[:n_val // 3] + knots[:n_val // 2]
+        pick += rest[:max(0, n_val - len(pick))]
         reqs = [' '.join(['a_bs_val', l.grp, 'f64a'] + l.ins + l.outs) for l in pick]
         reps = run_driver_par(reqs, chunk=16)
         worst = {}
